@@ -534,7 +534,7 @@ def handle (ws : List String) : String :=
       reply (f (hostOttoOnCopy r)) (f (Spec.hostOttoOnCopy r)) "-"
     | none => "bad-op"
   | ["api", c] => match apiCase? c with
-    | some c => reply (apiOutTok (apiModel c)) (apiOutTok (Spec.apiSpec c)) ((Spec.Dev.apiRegion c).getD "-")
+    | some c => reply (apiOutTok (apiModel c)) (apiOutTok (Spec.apiSpec c)) "-"
     | none => "bad-op"
   | "callx" :: kind :: mem :: this :: ex :: args => match path? kind mem this, exit? ex, goVals? args with
     | some p, some b, some gs => callxOp p b gs
